@@ -17,6 +17,12 @@ def c15_check(src, ns):
     snap = (getattr(x, "names", None), getattr(x, "symbols", None), getattr(x, "name", None), getattr(x, "symbol", None))
     codecs = {"pickle": lambda v: pickle.loads(pickle.dumps(v)), "copy": copy.copy, "deepcopy": copy.deepcopy,
               "json": lambda v: json.loads(json.dumps(v, cls=MeasuredJSONEncoder), cls=MeasuredJSONDecoder)}
+    def installed(v):
+        # the other documented JSON route: the codecs installed as the json module's defaults
+        from measured.json import codecs_installed
+        with codecs_installed():
+            return json.loads(json.dumps(v))
+    codecs["json-installed"] = installed
     for name, f in codecs.items():
         try:
             y = f(x)
@@ -25,7 +31,7 @@ def c15_check(src, ns):
             continue
         if isinstance(x, measured.Quantity):
             ok = isinstance(y, measured.Quantity) and type(y.magnitude) is type(x.magnitude) and (y.magnitude == x.magnitude or (x.magnitude != x.magnitude))
-            if name != "json":
+            if not name.startswith("json"):
                 ok = ok and y.unit is x.unit
             else:
                 try: ok = ok and (y.unit is x.unit or y == x or (y.unit.dimension is x.unit.dimension and abs(float(y.in_unit(x.unit).magnitude) - float(x.magnitude)) <= 1e-9 * abs(float(x.magnitude))))
@@ -59,7 +65,7 @@ def run(tier, seed):
         us = "(" + " * ".join(parts) + ")"
         srcs.append(us)
         srcs.append("(%s * %s)" % (rng.choice(["5", "2.5", "Decimal('1.25')", "-3", "0", "2**53", "(-(2**53)-1)", "2**63", "10**30", "1e300", "float(2**60)", "-0.0",
-                                                  "Decimal('1E+40')", "Decimal('0.000')", "1e-320", "(7*10**400)"]), us))
+                                                  "Decimal('1E+40')", "Decimal('0.000')", "1e-320", "(7*10**400)", "float('inf')", "(-float('inf'))"]), us))
     for i, u in enumerate(["Meter", "(Kilo*Meter)", "Hertz", "(Meter / Second)"]):
         for first, second in (("%d", "%d.0"), ("%d.0", "%d"), ("%d", "Decimal('%d')"), ("Decimal('%d')", "%d.0")):
             n_ = 40 + 7 * i + len(srcs) % 5
@@ -75,7 +81,7 @@ def run(tier, seed):
         for msg in bad:
             key = msg.split(":")[0]
             x = eval(src, ns)
-            if key == "json" and isinstance(x, measured.Quantity):
+            if key in ("json", "json-installed") and isinstance(x, measured.Quantity):
                 from .p_c13 import c13_unit, classify
                 m = c13_unit(src.split(" * ", 1)[1][:-1], ns)
                 if m:
@@ -84,9 +90,9 @@ def run(tier, seed):
                 failures.append({"key": key, "desc": "%s: %s" % (src, msg), "src": src})
         if len(samples) < 4:
             samples.append(src)
-    return {"evaluations": evals * 4, "distinct": len(distinct), "failures": failures[:12], "samples": samples,
+    return {"evaluations": evals * 5, "distinct": len(distinct), "failures": failures[:12], "samples": samples,
             "rule": "every registered unit, prefix and dimension (ground) plus random compound/prefixed units and quantities (int, float, Decimal) x {pickle, copy, "
-                    "deepcopy, JSON}; identity for interned objects, equal magnitude and type for quantities; distinct = distinct values", "bound": "%d values x 4 codecs" % len(srcs)}
+                    "deepcopy, JSON with explicit encoder/decoder, JSON with the codecs installed}; identity for interned objects, equal magnitude and type for quantities; distinct = distinct values", "bound": "%d values x 5 codecs" % len(srcs)}
 
 
 def replay_body(f):
